@@ -31,6 +31,7 @@ class Harness:
         self.props = []
         self.bound = ''
         self.companion = ''
+        self.decides = ''       # function whose WHOLE contract this (complete) harness file proves
 
 
 def load_harness_files():
@@ -40,7 +41,7 @@ def load_harness_files():
         if not fn.endswith('.rs'):
             continue
         text = open(os.path.join(d, fn)).read()
-        target, props, kind, bound, comp = None, [], 'bounded', '', ''
+        target, props, kind, bound, comp, dec = None, [], 'bounded', '', '', ''
         hs = []
         for line in text.splitlines():
             if not line.startswith('//!'):
@@ -60,11 +61,14 @@ def load_harness_files():
                     kind, bound = 'bounded', k.split(':', 1)[1].strip() if ':' in k else k
             elif l.startswith('companion-of:'):
                 comp = l.split(':', 1)[1].strip()
+            elif l.startswith('decides:'):
+                dec = l.split(':', 1)[1].strip()
             elif l.startswith('harness:'):
                 hs.append(l.split(':', 1)[1].split()[0])
         for h in hs:
             x = Harness()
             x.file, x.name, x.target, x.kind, x.props, x.bound, x.companion = fn, h, target, kind, props, bound, comp
+            x.decides = dec
             out.append(x)
     return out
 
